@@ -231,6 +231,40 @@ func roundtrip(c Case) (outcome, detail string) {
 	if ok, why := same(resp, got); !ok {
 		return "silently-different", why
 	}
+	// DNS does not keep the order of the records of an answer (round-robin rotation, shuffling resolvers); the
+	// records carry order tags for that reason. Whatever order arrives, the client must recover the same response
+	// or report a failure - never a different one.
+	if n := len(back.Answer); n > 1 {
+		orig := append([]dns.RR{}, back.Answer...)
+		perms := map[string]func(i int) int{
+			"rotated":  func(i int) int { return (i + 1) % n },
+			"reversed": func(i int) int { return n - 1 - i },
+			"rest-rotated": func(i int) int {
+				if i == 0 {
+					return 0
+				}
+				return 1 + i%(n-1)
+			},
+			"stride": func(i int) int { return (i*7 + 3) % n },
+		}
+		for _, name := range []string{"rotated", "reversed", "rest-rotated", "stride"} {
+			if name == "stride" && (n%7 == 0 || n < 4) {
+				continue
+			}
+			m := back
+			m.Answer = make([]dns.RR, n)
+			for i := range m.Answer {
+				m.Answer[i] = orig[perms[name](i)]
+			}
+			got2, err := ser.DecodeDnsResponseWithParams(&m, e)
+			if err != nil {
+				continue // reported
+			}
+			if ok, why := same(resp, got2); !ok {
+				return "silently-different", "answer records " + name + ": " + why
+			}
+		}
+	}
 	return "ok", ""
 }
 
